@@ -413,7 +413,18 @@ pub fn gen_foreign(rng: &mut Rng, o: &ForeignOpts, st: &mut Stats) -> Foreign {
     }
     let root = if o.multi_frame { spec::codec_compress_frames(o.icomp, &spec::encode_dir(&level)) } else { spec::codec_compress(o.icomp, &spec::encode_dir(&level)) };
     let meta_text = if o.empty_meta { b"{}".to_vec() } else { gen_meta(rng) };
-    let meta_sec = if o.empty_meta { Vec::new() } else if o.multi_frame { spec::codec_compress_frames(o.icomp, &meta_text) } else { spec::codec_compress(o.icomp, &meta_text) };
+    // other writers format their JSON differently: insignificant whitespace before, inside and after the object
+    let meta_file_text: Vec<u8> = match rng.below(4) {
+        0 => meta_text.clone(),
+        1 => [b"\n ".as_slice(), &meta_text, b"\n"].concat(),
+        2 => [b" \t\r\n".as_slice(), &meta_text, b"  "].concat(),
+        _ => serde_json::from_slice::<serde_json::Value>(&meta_text).ok().and_then(|v| serde_json::to_vec_pretty(&v).ok()).map_or(meta_text.clone(), |mut p| {
+            p.insert(0, b'\n');
+            p.push(b'\n');
+            p
+        }),
+    };
+    let meta_sec = if o.empty_meta { Vec::new() } else if o.multi_frame { spec::codec_compress_frames(o.icomp, &meta_file_text) } else { spec::codec_compress(o.icomp, &meta_file_text) };
     // section placement
     let mut file = vec![0u8; 127];
     let gap = |rng: &mut Rng, file: &mut Vec<u8>, on: bool| {
